@@ -1,4 +1,6 @@
 import Martian.Equiv
+import Martian.EquivLockLTS
+import Martian.EquivMeaning
 import Gen.Facts
 import Driver.Util
 
@@ -109,6 +111,27 @@ def prog : P Prog := do
   let c ← call
   pure { tab := t, call := c }
 
+def keyList : P (List Key) := do
+  let n ← nat
+  rep key n
+
+/-- extras ::= X <n> (<name> <src> <resources> keyList(retain) params(chunkIns) params(chunkOuts)
+                      <n> (<k> <k>)^n (helps))^n  T <n> (<name> params)^n -/
+def fullProg : P FullProg := do
+  let core ← prog
+  let _ ← (do if (← tok) == "X" then pure () else failure)
+  let n ← nat
+  let xs ← rep (do
+    let name ← key; let src ← key; let res ← key
+    let ret ← keyList; let ci ← params; let co ← params
+    let nh ← nat
+    let hs ← rep (do let a ← key; let b ← key; pure (a, b)) nh
+    pure (name, ({ src := src, resources := res, retain := ret, chunkIns := ci, chunkOuts := co, helps := hs } : Extra))) n
+  let _ ← (do if (← tok) == "T" then pure () else failure)
+  let m ← nat
+  let ts ← rep (do let name ← key; let fs ← params; pure (name, fs)) m
+  pure { core := core, extras := xs, structs := ts }
+
 def parseAll {α : Type} (p : P α) (s : String) : Option α :=
   match p.run (s.splitOn " ") with
   | some (x, []) => some x
@@ -129,13 +152,38 @@ def lockTrace (rf : Bool) : LockState → List LockOp → List String → Option
       lockTrace rf s' r ((if ok then "1" else "0") :: acc)
     else none
 
+def ltsAct (s : String) : Option Martian.LockLTS.Act :=
+  match s.toList with
+  | ['R'] => some .rmLock
+  | 'C' :: r => (String.ofList r).toNat?.map .check
+  | 'W' :: r => (String.ofList r).toNat?.map .write
+  | 'U' :: r => (String.ofList r).toNat?.map .unlock
+  | 'S' :: r => (String.ofList r).toNat?.map .signal
+  | 'K' :: r => (String.ofList r).toNat?.map .kill
+  | _ => none
+
+def ltsTrace (rf : Bool) : Martian.LockLTS.St → List Martian.LockLTS.Act → List String → Option (List String)
+  | s, [], acc => some (acc.reverse ++ [boolStr s.lockFile, toString s.holders.length, toString s.checked.length])
+  | s, a :: r, acc =>
+    if Martian.LockLTS.enabled s a then
+      let (s', ok) := Martian.LockLTS.step rf s a
+      ltsTrace rf s' r ((if ok then "1" else "0") :: acc)
+    else none
+
 def handle (op : String) (args : List String) : Option String :=
   match op, args with
   | "equiv", [a, b] => do
-    let a ← parseAll prog a
-    let b ← parseAll prog b
+    let fa ← parseAll fullProg a
+    let fb ← parseAll fullProg b
+    let a := fa.core
+    let b := fb.core
+    let n := Prog.fuel a b
+    -- `compared` parts are equal iff equivalentCall false (theorem equiv_iff_compared_meaning_eq);
+    -- the ignored parts are compared directly
+    let kinds := ignoredDiffKinds (meaning n fa).ignored (meaning n fb).ignored
     pure (" ".intercalate [boolStr (equivalentCall Gen.c15SelfCompare a b),
-      boolStr (equivalentCall false a b), boolStr a.wf, boolStr b.wf])
+      boolStr (equivalentCall false a b), boolStr a.wf, boolStr b.wf,
+      if kinds.isEmpty then "-" else ",".intercalate kinds])
   | "expequal", [a, b] => do
     let a ← parseAll exp a
     let b ← parseAll exp b
@@ -145,6 +193,11 @@ def handle (op : String) (args : List String) : Option String :=
     match lockTrace Gen.c15RegisterFirst lockInit ops [] with
     | some r => pure (" ".intercalate r)
     | none => pure "undisciplined"
+  | "lts", [ops] => do
+    let ops ← if ops == "." then some [] else (ops.splitOn ",").mapM ltsAct
+    match ltsTrace Gen.c15RegisterFirst Martian.LockLTS.init ops [] with
+    | some r => pure (" ".intercalate r)
+    | none => pure "not-enabled"
   | "selfcompare", [] => pure (boolStr Gen.c15SelfCompare)
   | "registerfirst", [] => pure (boolStr Gen.c15RegisterFirst)
   | _, _ => none
